@@ -35,6 +35,11 @@ def run(ctx):
     unknown_flags = json.load(open(os.path.join(d3, 'summary.json')))['unknown_boolean_flags'] or []
     for fl in json.load(open(os.path.join(d3, 'summary.json'))).get('unknown_value_flags') or []:
         ctx.drift.append('the tool has a switch -%s <value> that no specification here models: what it loads or changes is not judged' % fl)
+    # what each lint reports on objects re-dated to its own boundary instants (a severity chosen by date shows exactly there)
+    d5 = vlib.drive(ctx, exe, 'window')
+    for s in json.load(open(os.path.join(d5, 'statuses.json'))) or []:
+        n, st = s.rsplit('|', 1)
+        observed.setdefault(n, set()).add(int(st))
     # what the repository's own tests make the lints report (recorded in the test processes: vlib.suite_traces)
     vlib.suite_traces(ctx)
     d4 = vlib.drive(ctx, exe, 'suite')
